@@ -1,4 +1,5 @@
 import Rangers.Proofs.PoolPack
+import Rangers.Proofs.PoolCrash
 /-!
 # C17, part D — expiry, evictions, where `MarkExecuted` writes, crash between two writes, `Clear()`
 
@@ -74,6 +75,16 @@ theorem mark_crash_sound (s s' : Pool) (rs : List (Nat × Nat)) (txs : List Tx) 
     s'.pending = s.pending ∧ s'.evicted = s.evicted ∧ (∀ x, x ∈ s.execHashes → x ∈ s'.execHashes) ∧
       (∀ x, x ∈ s'.execHashes → x ∈ s.execHashes ∨ x ∈ rs.map (·.1)) :=
   markExecutedZ_crash hi.batch hi.attached hc hz h
+
+/-- **The records present after such a death are exactly the old ones plus those of a prefix of the block's
+receipts, in receipt order** (the receipts covered by the physical writes that went through): never a record
+from the middle or the end of the block without all earlier ones. Together with `restart_inv` and
+`mark_any_sizes`: re-delivering the block after the restart completes exactly the missing suffix. -/
+theorem mark_crash_prefix (s s' : Pool) (rs : List (Nat × Nat)) (txs : List Tx) (evicted : List Nat) (k : Nat) (ws : List Nat)
+    (hi : Inv s) (hc : Covered (rs.map (·.1)) txs)
+    (h : s.markExecutedZ rs txs evicted (some k) = (s', ws, .crash)) :
+    ∃ n, n ≤ rs.length ∧ ∀ x, x ∈ s'.execHashes ↔ x ∈ s.execHashes ∨ x ∈ (rs.take n).map (·.1) :=
+  markExecutedZ_crash_prefix hi.batch hi.attached hc h
 
 /-- After the restart the invariant holds again, whatever state the death left: nothing is pending, the
 unwritten batch is gone, the records stay. Re-delivering the block then completes its records (`mark_any_sizes`). -/
